@@ -754,3 +754,52 @@ func collapseIrrelevantAtoms(t map[string][]string) map[string][]string {
 	}
 	return out
 }
+
+// cacheExtraNames: exported methods of the cache types beyond the reviewed list (API additions). The per-path rules
+// (live-guard, removal only of expired entries, callbacks, check-then-act, nothing foreign under the lock, twins
+// agree) are applied to them as well wherever the evaluator models the method completely; they have no reference
+// table.
+func cacheExtraNames(r *Run) []string {
+	known := map[string]bool{}
+	for _, n := range cachePublic {
+		known[n] = true
+	}
+	set := map[string]bool{}
+	for twin := 0; twin < 2; twin++ {
+		for n, f := range r.M.CacheM[twin] {
+			if f != nil && !known[n] && f.Object() != nil && f.Object().Exported() {
+				set[n] = true
+			}
+		}
+	}
+	var out []string
+	for n := range set {
+		out = append(out, n)
+	}
+	sort.Strings(out)
+	return out
+}
+
+// cleanPaths: the method exists and was evaluated without unmodelled constructs or overflow.
+func cleanPaths(mp *MethodPaths) bool {
+	if mp == nil || mp.Fn == nil || mp.Overflow || len(mp.Paths) == 0 {
+		return false
+	}
+	for _, p := range mp.Paths {
+		if len(p.Problems) > 0 {
+			return false
+		}
+	}
+	return true
+}
+
+// cacheMethodList: the reviewed methods followed by the API additions; extra[name] marks the latter.
+func cacheMethodList(r *Run) (names []string, extra map[string]bool) {
+	extra = map[string]bool{}
+	names = append(names, cachePublic...)
+	for _, n := range cacheExtraNames(r) {
+		names = append(names, n)
+		extra[n] = true
+	}
+	return names, extra
+}
